@@ -238,12 +238,19 @@ func TestC01Runs(t *testing.T) {
 	defer o.Close()
 	r := kit.NewRand(kit.Seed() + 2)
 	rounds := kit.N(10, 80)
+	// like the process-wide instance of a real f1 binary, one metrics instance serves
+	// consecutive runs of the same scenario (Run.Do resets it at the start of every run)
+	shared := runkit.NewMetrics(nil, true)
 	for i := 0; i < rounds; i++ {
-		wholeRun(o, r, i)
+		if i%2 == 0 {
+			wholeRun(o, r, i, shared)
+		} else {
+			wholeRun(o, r, i, nil)
+		}
 	}
 }
 
-func wholeRun(o *kit.Out, r *kit.Rand, idx int) {
+func wholeRun(o *kit.Out, r *kit.Rand, idx int, m *metrics.Metrics) {
 	mode := kit.Pick(r, "users", "users", "constant", "staged")
 	conc := int(r.Range(1, 16))
 	var passed, failed atomic.Int64
@@ -280,7 +287,7 @@ func wholeRun(o *kit.Out, r *kit.Rand, idx int) {
 		Mode: mode, Flags: flags, Scenario: scenario,
 		Opts: options.RunOptions{MaxDuration: time.Duration(r.Range(150, 350)) * time.Millisecond, Concurrency: conc,
 			MaxIterations: uint64(kit.Pick(r, 0, 0, 500, 5000)), IgnoreDropped: true, MaxFailuresRate: 100},
-		Ctx: context.Background(),
+		Ctx: context.Background(), Metrics: m,
 		OnRun: func(rn *run.Run) {
 			swg.Add(1)
 			go func() {
@@ -315,6 +322,7 @@ func wholeRun(o *kit.Out, r *kit.Rand, idx int) {
 	}
 	o.AddStat("run_iterations", passed.Load()+failed.Load())
 	o.AddStat("forced_snapshots", forced.Load())
+	o.Count("metrics-instance", map[bool]string{true: "shared with earlier runs", false: "fresh"}[m != nil])
 	o.Case("c01_ok", []string{kit.I(passed.Load()), kit.I(failed.Load()), kit.I(nd),
 		kit.I(sn.SuccessfulIterationDurations.Count), kit.I(sn.FailedIterationDurations.Count), kit.I(sn.DroppedIterationCount),
 		"T", kit.I(iter["success"]), kit.I(iter["fail"]), kit.I(iter["dropped"])}, "T", tags...)
